@@ -59,6 +59,30 @@ mod connection;
 mod stream;
 mod substream;
 
+/// Verification hooks: the crate-private WebSocket connection's protocol negotiation (its
+/// cfg-gated `verif_negotiate_protocol`) behind a public function. Adds code only.
+#[cfg(feature = "verif")]
+pub mod verif {
+    use crate::{
+        error::NegotiationError, multistream_select::Negotiated, types::protocol::ProtocolName,
+    };
+    use futures::{AsyncRead, AsyncWrite};
+    use std::time::Duration;
+
+    /// See `WebSocketConnection::verif_negotiate_protocol`.
+    pub async fn negotiate_protocol<S: AsyncRead + AsyncWrite + Unpin>(
+        stream: S,
+        dialer: bool,
+        protocols: Vec<String>,
+        timeout: Duration,
+    ) -> Result<(Negotiated<S>, ProtocolName), NegotiationError> {
+        super::connection::WebSocketConnection::verif_negotiate_protocol(
+            stream, dialer, protocols, timeout,
+        )
+        .await
+    }
+}
+
 pub mod config;
 
 /// Logging target for the file.
